@@ -248,6 +248,78 @@ def _dpd_job(args):
         return {"ok": -1, "error": f"{type(ex).__name__}: {ex}\n{traceback.format_exc()[-1500:]}"}
 
 
+def _pure_boost(q):
+    """(n,4,4): the pure boost into the rest frame of q (n,4)"""
+    n = len(q)
+    E = q[:, 0]
+    m = np.sqrt(np.maximum(E**2 - (q[:, 1:] ** 2).sum(1), 0))
+    g = E / m
+    b = q[:, 1:] / E[:, None]
+    b2 = (b**2).sum(1)
+    L = np.zeros((n, 4, 4))
+    L[:, 0, 0] = g
+    L[:, 0, 1:] = -g[:, None] * b
+    L[:, 1:, 0] = -g[:, None] * b
+    k = np.where(b2 > 0, (g - 1) / np.where(b2 > 0, b2, 1), 0)
+    L[:, 1:, 1:] = np.eye(3)[None] + k[:, None, None] * b[:, :, None] * b[:, None, :]
+    return L
+
+
+def _wigner_job(args):
+    """Worker: the Wigner angles alpha, beta, gamma of an axis-angle aligned model against their meaning: R_z(alpha) R_y(beta) R_z(gamma)
+    is the rotation (L_n ... L_1) L_direct^-1, with L_1 ... L_n the successive pure boosts into the rest frames of the particle's ancestors
+    (outermost first) and of the particle itself, and L_direct the pure boost from the initial-state rest frame straight into the particle's
+    rest frame (Marangotto 2019, eq. 36 and B.2-4), computed here with numpy from the four-momenta."""
+    spec, events, seed = args
+    logging.disable(logging.CRITICAL)
+    try:
+        reaction0 = load(spec)
+        reaction, off, b = configure_alignment(reaction0, "axis")
+        model = b.formulate()
+        ev = numeric.ModelEvaluator(model, coupling_values(model, seed))
+        P = {i + off: np.asarray(p) for i, p in events.items()}
+        n = len(next(iter(P.values())))
+        kv = {str(k): v for k, v in ev.kinematics(P).items()}
+        out = []
+        for name in sorted(kv):
+            if not name.startswith("alpha"):
+                continue
+            suffix = name[len("alpha"):]
+            if "beta" + suffix not in kv or "gamma" + suffix not in kv:
+                out.append({"suffix": suffix, "diff": 9.0, "note": "beta/gamma missing"})
+                continue
+            sets = topo.parse_name("x" + suffix)[1]
+            (i,) = sets[0]
+            systems = [tuple(S) for S in reversed(sets[1:])] + [(i,)]
+            if float(np.min(np.abs(P[i][:, 0] ** 2 - (P[i][:, 1:] ** 2).sum(1)))) < 1e-12:
+                out.append({"suffix": suffix, "diff": -1.0, "note": "massless particle: no rest frame"})
+                continue
+            cur = {k: v.copy() for k, v in P.items()}
+            L = np.broadcast_to(np.eye(4), (n, 4, 4)).copy()
+            for Q in systems:
+                q = sum(cur[k] for k in Q)
+                LQ = _pure_boost(q)
+                cur = {k: np.einsum("nij,nj->ni", LQ, v) for k, v in cur.items()}
+                L = np.einsum("nij,njk->nik", LQ, L)
+            pd = P[i].copy()
+            Ld_inv = _pure_boost(np.column_stack([pd[:, 0], -pd[:, 1:]]))
+            R = np.einsum("nij,njk->nik", L, Ld_inv)
+            sanity = float(np.max(np.abs(R[:, 0, 0] - 1)) + np.max(np.abs(R[:, 0, 1:])) + np.max(np.abs(R[:, 1:, 0])))
+            a, bb, c = (np.broadcast_to(np.asarray(kv[x + suffix], dtype=float), (n,)) for x in ("alpha", "beta", "gamma"))
+            ca, sa, cb, sb, cc, sc = np.cos(a), np.sin(a), np.cos(bb), np.sin(bb), np.cos(c), np.sin(c)
+            E = np.empty((n, 3, 3))
+            E[:, 0, 0], E[:, 0, 1], E[:, 0, 2] = ca * cb * cc - sa * sc, -ca * cb * sc - sa * cc, ca * sb
+            E[:, 1, 0], E[:, 1, 1], E[:, 1, 2] = sa * cb * cc + ca * sc, -sa * cb * sc + ca * cc, sa * sb
+            E[:, 2, 0], E[:, 2, 1], E[:, 2, 2] = -sb * cc, sb * sc, cb
+            d = float(np.nanmax(np.abs(E - R[:, 1:, 1:])))
+            out.append({"suffix": suffix, "diff": d if np.isfinite(d) else 9.0, "sanity": sanity, "note": ""})
+        return {"ok": 1, "error": "", "angles": out}
+    except Exception as ex:  # noqa: BLE001
+        import traceback
+
+        return {"ok": -1, "error": f"{type(ex).__name__}: {ex}\n{traceback.format_exc()[-1500:]}"}
+
+
 def run_jobs(jobs, workers=12, job_timeout=150, fn=None):
     """Run _job for every entry in forked workers, at most `workers` at a time; a job that exceeds
     job_timeout seconds is killed and reported as {"ok": -2} (too expensive, not a verdict)."""
